@@ -26,7 +26,7 @@ const plan *PLAN;
 
 const char *const opname[OP_NOPS] = { "none", "hold", "yield", "wait-process", "wait-event", "resource-acquire",
     "resource-preempt", "pool-acquire", "pool-preempt", "buffer-put", "buffer-get", "queue-put", "queue-get",
-    "pqueue-put", "pqueue-get", "condition-wait" };
+    "pqueue-put", "pqueue-get", "condition-wait", "wait-timer-event" };
 
 /* processes live in a harness arena: relative address order is a controlled schedule input */
 static struct cmb_process arena[MAXP] __attribute__((aligned(64)));
@@ -196,7 +196,7 @@ static void do_gcancel(int g, int j, bool resume)
     if (waiting) {
         count_landing(resume ? "guard_cancel" : "guard_remove", t);
         t->named_this_event = true;
-        if (resume) cause_add(t, CK_GCANCEL, CMB_PROCESS_CANCELLED, tnow(), true);
+        if (resume) { cause *c = cause_add(t, CK_GCANCEL, CMB_PROCESS_CANCELLED, tnow(), true); c->ref = W.guards[g].cls; }
     }
 }
 
@@ -518,6 +518,18 @@ static void exec_step(proc *pr, const pline *l)
         if (!W.hev[e].pending) return;
         call_begin(pr, OP_WAITE, e, 0);
         ret = cmb_process_wait_event(W.hev[e].handle);
+        call_end(pr, ret);
+    } else if (pis(l, "WAITT")) {
+        /* wait for an event the library itself owns: a timer of another process (it may fire, or be cancelled by its owner,
+         * by somebody else, or by whatever interrupts, preempts or ends the owner) */
+        const int j = (int)((uint64_t)pa(l, 1) % (uint64_t)np);
+        if (j == pr->id || !PR[j].started || PR[j].finished || PR[j].ntimers == 0) return;
+        const uint64_t h = PR[j].timer_handle[(uint64_t)pa(l, 2) % (uint64_t)PR[j].ntimers];
+        if (h == 0 || !cmb_event_is_scheduled(h)) return;
+        call_begin(pr, OP_WAITT, j, 0);
+        pr->waitt_handle = h;
+        PROBE("c04.wait_for_timer_event_of_other_process");
+        ret = cmb_process_wait_event(h);
         call_end(pr, ret);
     } else if (pis(l, "ACQ") || pis(l, "PRE")) {
         if (W.nres == 0) return;
